@@ -60,7 +60,7 @@ func (s *ScanMethod) ProcessPacketData(data []byte, _ *gopacket.CaptureInfo) err
 	if err := s.parser.DecodeLayers(data, &s.rcvDecoded); err != nil {
 		return err
 	}
-	if len(s.rcvDecoded) != 2 {
+	if !validPacket(s.rcvDecoded, &s.rcvARP) {
 		return nil
 	}
 
@@ -73,6 +73,15 @@ func (s *ScanMethod) ProcessPacketData(data []byte, _ *gopacket.CaptureInfo) err
 		Vendor: hwVendor,
 	})
 	return nil
+}
+
+// validPacket reports whether exactly the header chain Ethernet, ARP was decoded
+// and the ARP packet carries 6-byte hardware and 4-byte protocol addresses
+func validPacket(decoded []gopacket.LayerType, pkt *layers.ARP) bool {
+	return len(decoded) == 2 &&
+		decoded[0] == layers.LayerTypeEthernet && decoded[1] == layers.LayerTypeARP &&
+		pkt.HwAddressSize == 6 && pkt.ProtAddressSize == 4 &&
+		len(pkt.SourceHwAddress) >= 3
 }
 
 type PacketFiller struct{}
